@@ -46,15 +46,18 @@ Definition wr_graph (g : ingraph) : xgraph :=
 Definition wr_doc (gs : list ingraph) : xdoc := map wr_graph gs.
 
 (* ---- reader *)
-(* str.strip(): the characters str.isspace accepts, at both ends *)
-Definition py_strip (s : str) : str := rev (drop_while is_space (rev (drop_while is_space s))).
+(* str.strip(chars): the characters of the class [ws], at both ends.  Since the repair of
+   finding F20 the reader strips XML white space only (_XML_WS = " \t\r\n"); the historical
+   code called str.strip() without argument, i.e. the class str.isspace *)
+Definition strip_with (ws : N -> bool) (s : str) : str := rev (drop_while ws (rev (drop_while ws s))).
+Definition is_xml_ws (c : N) : bool := (c =? 32) || (c =? 9) || (c =? 13) || (c =? 10).
 
 (* a term in any position: C03's [obj] is node-or-literal *)
 Definition gtriple := (obj * obj * obj)%type.
-Definition rd_term (x : xterm) : option obj :=
+Definition rd_term_gen (ws : N -> bool) (x : xterm) : option obj :=
   match x with
-  | XUri s => Some (ONode (Iri (py_strip s)))
-  | XId s => Some (ONode (Bnode (py_strip s)))
+  | XUri s => Some (ONode (Iri (strip_with ws s)))
+  | XId s => Some (ONode (Bnode (strip_with ws s)))
   | XPlain s lang => Some (OLit s (truthy lang) None)
   | XTyped s lang dt => match truthy lang with
                         | Some _ => None                      (* Literal(): language and datatype *)
@@ -65,17 +68,17 @@ Definition rd_term (x : xterm) : option obj :=
 (* a maximal run of triples under one name: None = anonymous graph (Graph(store)) *)
 Definition seg := (option node * list gtriple)%type.
 
-Fixpoint rd_graph (cs : list gchild) (cur : option node) (acc : list gtriple) : option (list seg) :=
+Fixpoint rd_graph_gen (ws : N -> bool) (cs : list gchild) (cur : option node) (acc : list gtriple) : option (list seg) :=
   match cs with
   | [] => Some [(cur, rev acc)]
   | GName (XUri s) :: r =>
-      match rd_graph r (Some (Iri (py_strip s))) [] with Some l => Some ((cur, rev acc) :: l) | None => None end
+      match rd_graph_gen ws r (Some (Iri (strip_with ws s))) [] with Some l => Some ((cur, rev acc) :: l) | None => None end
   | GName (XId s) :: r =>
-      match rd_graph r (Some (Bnode (py_strip s))) [] with Some l => Some ((cur, rev acc) :: l) | None => None end
+      match rd_graph_gen ws r (Some (Bnode (strip_with ws s))) [] with Some l => Some ((cur, rev acc) :: l) | None => None end
   | GName _ :: _ => None                                       (* "Unexpected ... element" *)
   | GTriple [a; b; c] :: r =>
-      match rd_term a, rd_term b, rd_term c with
-      | Some x, Some y, Some z => rd_graph r cur ((x, y, z) :: acc)
+      match rd_term_gen ws a, rd_term_gen ws b, rd_term_gen ws c with
+      | Some x, Some y, Some z => rd_graph_gen ws r cur ((x, y, z) :: acc)
       | _, _, _ => None
       end
   | GTriple _ :: _ => None                                     (* "Triple has wrong length" *)
@@ -84,14 +87,18 @@ Fixpoint rd_graph (cs : list gchild) (cur : option node) (acc : list gtriple) : 
 (* an anonymous graph exists only once it has a triple *)
 Definition keep_seg (s : seg) : bool := match s with (None, []) => false | _ => true end.
 
-Fixpoint rd_doc (d : xdoc) : option (list seg) :=
+Fixpoint rd_doc_gen (ws : N -> bool) (d : xdoc) : option (list seg) :=
   match d with
   | [] => Some []
-  | g :: r => match rd_graph g None [], rd_doc r with
+  | g :: r => match rd_graph_gen ws g None [], rd_doc_gen ws r with
               | Some a, Some b => Some (filter keep_seg a ++ b)
               | _, _ => None
               end
   end.
+
+Definition rd_term := rd_term_gen is_xml_ws.
+Definition rd_graph := rd_graph_gen is_xml_ws.
+Definition rd_doc := rd_doc_gen is_xml_ws.
 
 (* ---- what the dataset should come back as: an IRI-named graph under its name, a
    blank-node-named graph as an anonymous one (finding F17: the name is not written) *)
@@ -103,18 +110,13 @@ Definition expect_graph (g : ingraph) : list seg :=
   end.
 Definition expect_doc (gs : list ingraph) : list seg := flat_map expect_graph gs.
 
-(* str.strip() leaves an IRI alone iff it neither begins nor ends with a character of str.isspace *)
-Definition edge_ok (s : str) : bool :=
+(* strip leaves a string alone iff it neither begins nor ends with a character of the class *)
+Definition edge_ok (ws : N -> bool) (s : str) : bool :=
   match s with
   | [] => true
-  | c :: _ => negb (is_space c) && negb (is_space (last s 0))
+  | c :: _ => negb (ws c) && negb (ws (last s 0))
   end.
-Definition node_edge_ok (n : node) : bool := match n with Iri u => edge_ok u | Bnode _ => true end.
-Definition trix_ok_triple (t : triple) : bool :=
-  let '(s, p, o) := t in
-  node_edge_ok s && edge_ok p && match o with ONode n => node_edge_ok n | _ => true end.
 Definition trix_wf (g : ingraph) : bool := wf_node (fst g) && forallb wf_triple (snd g).
-Definition trix_ok (g : ingraph) : bool := node_edge_ok (fst g) && forallb trix_ok_triple (snd g).
 
 (* ---- suite *)
 Inductive xt_case := XtWrite (gs : list ingraph) | XtRead (d : xdoc).
@@ -174,13 +176,8 @@ Definition xt_spec (c : xt_case) (o : xt_obs) : bool :=
   | XtRead _, _ => true
   end.
 
-(* known finding F20: an IRI that begins or ends with a whitespace character of
-   str.isspace (rdflib accepts e.g. U+00A0 in IRIs) is stripped by the reader *)
-Definition xt_kf (c : xt_case) : N :=
-  match c with
-  | XtWrite gs => if forallb trix_ok gs then 0 else 1
-  | XtRead _ => 0
-  end.
+(* no open finding at tree level (F20 - str.strip() without argument - is repaired) *)
+Definition xt_kf (c : xt_case) : N := 0.
 
 (* ------------------------------------------------------------------ proofs *)
 Lemma drop_while_head (p : N -> bool) c r : p c = false -> drop_while p (c :: r) = c :: r.
@@ -189,10 +186,10 @@ Proof. intros H. simpl. now rewrite H. Qed.
 Lemma last_rev_cons (l : list N) x : last (rev (x :: l)) 0 = x.
 Proof. simpl. induction (rev l) as [|a t IH]; [reflexivity|]. simpl. destruct (t ++ [x]) eqn:E; [destruct t; discriminate|exact IH]. Qed.
 
-Lemma py_strip_id s : edge_ok s = true -> py_strip s = s.
+Lemma strip_with_id ws s : edge_ok ws s = true -> strip_with ws s = s.
 Proof.
   destruct s as [|c r]; [reflexivity|]. intros H. unfold edge_ok in H. apply andb_true_iff in H as [H1 H2].
-  apply negb_true_iff in H1, H2. unfold py_strip. rewrite (drop_while_head _ c r H1).
+  apply negb_true_iff in H1, H2. unfold strip_with. rewrite (drop_while_head _ c r H1).
   destruct (rev (c :: r)) as [|x t] eqn:E.
   - apply (f_equal (@length N)) in E. rewrite rev_length in E. discriminate.
   - assert (last (c :: r) 0 = x) as Hl.
@@ -200,34 +197,53 @@ Proof.
     rewrite Hl in H2. rewrite (drop_while_head _ x t H2), <- E. apply rev_involutive.
 Qed.
 
-Lemma label_edge_ok l : wf_label l = true -> edge_ok l = true.
+Lemma last_In (l : list N) a : l <> [] -> In (last l a) l.
 Proof.
-  assert (forall c, name_char c = true -> is_space c = false) as Hns.
-  { intros c Hc. destruct (is_space c) eqn:E; [|reflexivity]. unfold is_space in E. apply mem_true_in in E.
-    assert (forallb (fun x => negb (name_char x)) py_isspace = true) as Ht by reflexivity.
-    rewrite forallb_forall in Ht. specialize (Ht c E). now rewrite Hc in Ht. }
+  induction l as [|y l IH]; intros Hne; [congruence|]. destruct l as [|z l']; [now left|]. right. apply IH. discriminate.
+Qed.
+
+Lemma forallb_edge ws (p : N -> bool) s :
+  (forall c, p c = true -> ws c = false) -> forallb p s = true -> edge_ok ws s = true.
+Proof.
+  intros Hp H. destruct s as [|c r]; [reflexivity|]. unfold edge_ok. rewrite forallb_forall in H.
+  apply andb_true_iff. split; apply negb_true_iff, Hp, H; [now left|apply last_In; discriminate].
+Qed.
+
+(* XML white space cannot occur in an IRI rdflib accepts, nor in a blank-node label *)
+Lemma xml_ws_invalid c : is_xml_ws c = true -> mem c invalid_uri = true.
+Proof.
+  unfold is_xml_ws. intros H. apply orb_true_iff in H as [H|H]; [apply orb_true_iff in H as [H|H]; [apply orb_true_iff in H as [H|H]|]|];
+    apply N.eqb_eq in H; subst c; reflexivity.
+Qed.
+
+Lemma iri_edge_ok u : wf_iri u = true -> edge_ok is_xml_ws u = true.
+Proof.
+  intros H. unfold wf_iri in H. apply andb_true_iff in H as [H _]. unfold valid_uri in H.
+  apply (forallb_edge is_xml_ws (fun c => negb (mem c invalid_uri))); [|exact H].
+  intros c Hc. destruct (is_xml_ws c) eqn:E; [|reflexivity]. apply xml_ws_invalid in E. now rewrite E in Hc.
+Qed.
+
+Lemma label_edge_ok l : wf_label l = true -> edge_ok is_xml_ws l = true.
+Proof.
   intros H. unfold wf_label in H. destruct l as [|c r]; [discriminate|].
   apply andb_true_iff in H as [H _]. apply andb_true_iff in H as [Hc Hr].
-  unfold edge_ok. apply andb_true_iff. split; apply negb_true_iff, Hns.
-  - unfold name_char. now rewrite Hc.
-  - destruct r as [|d r']; [cbn [last]; unfold name_char; now rewrite Hc|].
-    rewrite forallb_forall in Hr. apply Hr. change (last (c :: d :: r') 0) with (last (d :: r') 0).
-    assert (forall (l : list N) a, l <> [] -> In (last l a) l) as Hin.
-    { induction l as [|y l IH]; intros a Hne; [congruence|]. destruct l as [|z l']; [now left|]. right. apply IH. discriminate. }
-    apply Hin. discriminate.
+  apply (forallb_edge is_xml_ws name_char).
+  - intros x Hx. destruct (is_xml_ws x) eqn:E; [|reflexivity]. unfold is_xml_ws in E.
+    apply orb_true_iff in E as [E|E]; [apply orb_true_iff in E as [E|E]; [apply orb_true_iff in E as [E|E]|]|];
+      apply N.eqb_eq in E; subst x; discriminate.
+  - cbn [forallb]. unfold name_char at 1. now rewrite Hc, Hr.
 Qed.
 
-Lemma rd_wr_node n : wf_node n = true -> node_edge_ok n = true -> rd_term (wr_node n) = Some (ONode n).
+Lemma rd_wr_node n : wf_node n = true -> rd_term (wr_node n) = Some (ONode n).
 Proof.
-  destruct n as [u|l]; intros Hwf Hok; simpl in *.
-  - now rewrite py_strip_id.
-  - now rewrite py_strip_id by (now apply label_edge_ok).
+  destruct n as [u|l]; intros Hwf; simpl in *; unfold rd_term; cbn [rd_term_gen].
+  - now rewrite strip_with_id by (now apply iri_edge_ok).
+  - now rewrite strip_with_id by (now apply label_edge_ok).
 Qed.
 
-Lemma rd_wr_obj o : wf_obj o = true -> match o with ONode n => node_edge_ok n = true | _ => True end ->
-  rd_term (wr_obj o) = Some o.
+Lemma rd_wr_obj o : wf_obj o = true -> rd_term (wr_obj o) = Some o.
 Proof.
-  destruct o as [n|lex lang dt]; intros Hwf Hok.
+  destruct o as [n|lex lang dt]; intros Hwf.
   - now apply rd_wr_node.
   - destruct lang as [l|], dt as [d|]; simpl in Hwf; try discriminate.
     + destruct (valid_langtag_nonempty l Hwf) as (c & r & ->). reflexivity.
@@ -235,49 +251,48 @@ Proof.
     + reflexivity.
 Qed.
 
-Lemma rd_wr_triple t : wf_triple t = true -> trix_ok_triple t = true ->
+Lemma rd_wr_triple t : wf_triple t = true ->
   exists x y z, wr_triple t = [x; y; z] /\ rd_term x = Some (fst (fst (emb t)))
                 /\ rd_term y = Some (snd (fst (emb t))) /\ rd_term z = Some (snd (emb t)).
 Proof.
-  destruct t as [[s p] o]. intros Hwf Hok. unfold wf_triple in Hwf.
+  destruct t as [[s p] o]. intros Hwf. unfold wf_triple in Hwf.
   apply andb_true_iff in Hwf as [Hwf Hwo]. apply andb_true_iff in Hwf as [Hws Hwp].
-  unfold trix_ok_triple in Hok. apply andb_true_iff in Hok as [Hok Hoo]. apply andb_true_iff in Hok as [Hos Hop].
   exists (wr_node s), (XUri p), (wr_obj o). split; [reflexivity|]. simpl. split; [now apply rd_wr_node|].
-  split; [now rewrite py_strip_id|]. apply rd_wr_obj; [exact Hwo|]. destruct o; [exact Hoo|exact I].
+  split; [unfold rd_term; cbn [rd_term_gen]; now rewrite strip_with_id by (now apply iri_edge_ok)|]. now apply rd_wr_obj.
 Qed.
 
 Lemma rd_graph_triples ts : forall cur acc,
-  forallb wf_triple ts = true -> forallb trix_ok_triple ts = true ->
+  forallb wf_triple ts = true ->
   rd_graph (map (fun t => GTriple (wr_triple t)) ts) cur acc = Some [(cur, rev acc ++ map emb ts)].
 Proof.
-  induction ts as [|t ts IH]; intros cur acc Hwf Hok; [simpl; now rewrite app_nil_r|].
-  simpl in Hwf, Hok. apply andb_true_iff in Hwf as [Ht Hts]. apply andb_true_iff in Hok as [Ho Hos].
-  destruct (rd_wr_triple t Ht Ho) as (x & y & z & E & Hx & Hy & Hz).
-  cbn [map rd_graph]. rewrite E, Hx, Hy, Hz. rewrite (IH cur _ Hts Hos). cbn [rev].
+  induction ts as [|t ts IH]; intros cur acc Hwf; [simpl; now rewrite app_nil_r|].
+  simpl in Hwf. apply andb_true_iff in Hwf as [Ht Hts].
+  destruct (rd_wr_triple t Ht) as (x & y & z & E & Hx & Hy & Hz).
+  unfold rd_graph, rd_term in *. cbn [map rd_graph_gen]. rewrite E, Hx, Hy, Hz. rewrite (IH cur _ Hts). cbn [rev].
   rewrite <- app_assoc. destruct (emb t) as [[a b] c]. reflexivity.
 Qed.
 
-Lemma rd_wr_graph g : trix_wf g = true -> trix_ok g = true ->
+Lemma rd_wr_graph g : trix_wf g = true ->
   exists segs, rd_graph (wr_graph g) None [] = Some segs /\ filter keep_seg segs = expect_graph g.
 Proof.
-  destruct g as [n ts]. unfold trix_wf, trix_ok. cbn [fst snd]. intros Hwf Hok.
-  apply andb_true_iff in Hwf as [Hn Hts]. apply andb_true_iff in Hok as [Hno Hto].
+  destruct g as [n ts]. unfold trix_wf. cbn [fst snd]. intros Hwf.
+  apply andb_true_iff in Hwf as [Hn Hts].
   unfold wr_graph, expect_graph. cbn [fst snd]. destruct n as [u|l].
-  - cbn [app rd_graph]. rewrite (rd_graph_triples ts _ [] Hts Hto). eexists. split; [reflexivity|].
-    simpl in Hno. rewrite py_strip_id by exact Hno. reflexivity.
-  - cbn [app]. rewrite (rd_graph_triples ts None [] Hts Hto). eexists. split; [reflexivity|].
+  - pose proof (rd_graph_triples ts (Some (Iri (strip_with is_xml_ws u))) [] Hts) as Hg.
+    unfold rd_graph in *. cbn [app rd_graph_gen]. rewrite Hg. eexists. split; [reflexivity|].
+    simpl in Hn. rewrite strip_with_id by (now apply iri_edge_ok). reflexivity.
+  - cbn [app]. rewrite (rd_graph_triples ts None [] Hts). eexists. split; [reflexivity|].
     destruct ts; reflexivity.
 Qed.
 
-(* every well-formed dataset whose IRIs are not touched by str.strip(): the tree
-   written is read back as the graphs of the dataset, blank-node names lost (F17) *)
-Theorem trix_tree_roundtrip gs : forallb trix_wf gs = true -> forallb trix_ok gs = true ->
-  rd_doc (wr_doc gs) = Some (expect_doc gs).
+(* every well-formed dataset: the tree written is read back as the graphs of the
+   dataset, blank-node names lost (F17) *)
+Theorem trix_tree_roundtrip gs : forallb trix_wf gs = true -> rd_doc (wr_doc gs) = Some (expect_doc gs).
 Proof.
-  induction gs as [|g gs IH]; intros Hwf Hok; [reflexivity|].
-  simpl in Hwf, Hok. apply andb_true_iff in Hwf as [Hg Hgs]. apply andb_true_iff in Hok as [Ho Hos].
-  destruct (rd_wr_graph g Hg Ho) as (segs & Hs & Hf).
-  cbn [wr_doc map rd_doc]. fold (wr_doc gs). rewrite Hs, (IH Hgs Hos), Hf. reflexivity.
+  induction gs as [|g gs IH]; intros Hwf; [reflexivity|].
+  simpl in Hwf. apply andb_true_iff in Hwf as [Hg Hgs].
+  destruct (rd_wr_graph g Hg) as (segs & Hs & Hf).
+  unfold rd_doc, rd_graph in *. cbn [wr_doc map rd_doc_gen]. fold (wr_doc gs). rewrite Hs, (IH Hgs), Hf. reflexivity.
 Qed.
 
 (* ------------------------------------------------------------------ model and checker *)
@@ -302,18 +317,17 @@ Proof.
   - intros [n t] _. unfold nq_eqb. simpl. now rewrite (proj2 (node_eqb_eq n n) eq_refl), gtriple_eqb_refl.
 Qed.
 
-Theorem xt_spec_model : forall c, xt_wf c = true -> xt_kf c = 0 -> xt_spec c (xt_model c) = true.
+Theorem xt_spec_model : forall c, xt_wf c = true -> xt_spec c (xt_model c) = true.
 Proof.
-  intros [gs|d] Hwf Hk; [|reflexivity]. simpl in Hwf. unfold xt_kf in Hk. unfold xt_spec, xt_model. rewrite Hwf.
-  destruct (forallb trix_ok gs) eqn:Hok; [|discriminate].
-  rewrite (trix_tree_roundtrip gs Hwf Hok). simpl. apply segs_eqb_refl.
+  intros [gs|d] Hwf; [|reflexivity]. simpl in Hwf. unfold xt_spec, xt_model. rewrite Hwf.
+  rewrite (trix_tree_roundtrip gs Hwf). simpl. apply segs_eqb_refl.
 Qed.
 
-(* the edge hypothesis is needed: U+00A0 at the end of an IRI is stripped (finding F20) *)
+(* the historical reader (str.strip() without argument, finding F20): U+00A0 at the end of an IRI was stripped *)
 Definition f20_witness : list ingraph :=
   [(Iri [117; 58; 103], [((Iri [104; 58; 97; 160], [104; 58; 112], ONode (Iri [104; 58; 98])) : triple)])].
 
-Lemma trix_strip_refuted :
-  forallb trix_wf f20_witness = true /\ xt_kf (XtWrite f20_witness) = 1
-  /\ xt_spec (XtWrite f20_witness) (xt_model (XtWrite f20_witness)) = false.
-Proof. repeat split; vm_compute; reflexivity. Qed.
+Lemma trix_strip_prefix_refuted :
+  forallb trix_wf f20_witness = true
+  /\ opt_eqb segs_eqb (rd_doc_gen is_space (wr_doc f20_witness)) (Some (expect_doc f20_witness)) = false.
+Proof. split; vm_compute; reflexivity. Qed.
